@@ -2,7 +2,7 @@
 # check.sh <Cxx> <quick|thorough|--replay file>
 # Rebuilds the instrumented harness from /repo's current working tree and runs it.
 set -u
-ID="$1"; MODE="${2:-quick}"; ARG="${3:-}"
+ID="$1"; MODE="${2:-quick}"; ARG="${3:-}"; [ -n "$ARG" ] && ARG=$(realpath "$ARG")
 export GOFLAGS=-mod=mod GOPROXY=off GOSUMDB=off GOTOOLCHAIN=local
 export GOCACHE=/verif/.cache/go-build
 REPO=/repo
@@ -28,6 +28,14 @@ C10)
   build "$W/bin" ./cmd/c10 -overlay "$W/ov.json" || exit 3
   build "$W/free" ./cmd/c10 -race -tags free || exit 3
   export VERIF_FREE_BIN="$W/free"
+  ;;
+C09|C11)
+  instr $REPO/machine/disk/file.go=unix
+  build "$W/bin" ./cmd/$LC -overlay "$W/ov.json" || exit 3
+  ;;
+C12)
+  instr $REPO/machine/filesys/dir.go=unix
+  build "$W/bin" ./cmd/$LC -overlay "$W/ov.json" || exit 3
   ;;
 *) echo "unknown property $ID" >&2; exit 3;;
 esac
